@@ -170,18 +170,19 @@ CHECKS["C11"] = dict(
 
 CHECKS["C08"] = dict(
     technique="Coq proofs (sorted running sums = counting definition for any tie-breaking; model = Kingman density; piece integrals by Coquelicot is_RInt; all-equal = constant; scaling law) on a polymorphic hand-written model; Paramcoq enclosure theorems; interval-run correspondence on log_prob and the JSON-built model call",
-    text="40 theorems in prop/C08.v: sorted_cumsum_is_counting and order_invariance for all six models, model = Kingman "
+    text="45 theorems in prop/C08.v: sorted_cumsum_is_counting and order_invariance for all six models, model = Kingman "
          "density for constant / exponential / skyride / skygrid (the piecewise-constant grid model under no_tie: its N jumps "
          "at grid points) and for piecewise-linear / piecewise-exponential WITH ties between coalescent times and grid points "
          "(C08_linear_eq_kingman, C08_pwexp_eq_kingman: continuity of N across grid points; the grid must be 0 < g1 < g2 < .. "
          "resp. sorted, and four _refuted theorems give witnesses that each part of that hypothesis is necessary), the "
-         "closed-form piece integrals are the integrals of 1/N (Coquelicot), all-equal = constant, scaling law (constant, "
-         "exponential, skyride, skygrid), Paramcoq enclosures of the interval runs. Tie to the code: interval-run correspondence "
+         "closed-form piece integrals are the integrals of 1/N (Coquelicot), all-equal = constant, scaling law for ALL SIX "
+         "models (C08_scaling_law_linear / _pwexp with ties allowed, + entry points; the refutation shows times >= 0 is needed "
+         "for the linear model), Paramcoq enclosures of the interval runs. Tie to the code: interval-run correspondence "
          "(relative 1e-9) on Distribution.log_prob and the JSON-built model call, n = 2..50, serial sampling with ties, "
          "shuffled heights, grids inside/beyond the root/before the first coalescence, batched; direct checks on the "
          "implementation: permutations, scaling, all-equal = constant, one-piece pwexp = exponential, refined skygrid.",
     note="Trusted: Coq kernel; hand-written model M_coalescent.v; torch argsort/bucketize modelled by exact sorting on Q "
-         "keys; scaling law for linear/pwexp not proved (checked on the implementation only); "
+         "keys; "
          "batch layouts that raise belong to C10.",
     design="§6 C08")
 
